@@ -137,7 +137,21 @@ class Scn:
             b = self.rng.choice(BUFFERS)
             return {"name": name, "k": "Buf", "v": b, "size": self.rng.choice([len(b), len(b), max(0, len(b) - 1)])}
         if allow_typed:
-            return {"name": name, "k": "Typed", "type": self.rng.choice(TYPES), "v": self.rng.randrange(8)}
+            # custom-type objects o0..o5 are plain (equal by key: o0~o1, o2~o3, o4~o5), o6 and o7 are patterns.  The
+            # comparator is asymmetric (only an EXPECTED pattern matches anything), so the operand order the adaptor
+            # node passes on matters: expected pattern / actual plain passes, expected plain / actual pattern fails.
+            x = self.rng.random()
+            if x < 0.35:
+                v, av = self.rng.choice([6, 7]), self.rng.randrange(6)          # expected <any>, actual plain: equal
+            elif x < 0.50:
+                v, av = self.rng.randrange(6), self.rng.choice([6, 7])          # expected plain, actual <any>: NOT equal
+            elif x < 0.60:
+                v, av = self.rng.choice([6, 7]), self.rng.choice([6, 7])
+            elif x < 0.85:
+                v = self.rng.randrange(6); av = v ^ 1                             # same key, another object
+            else:
+                v = av = self.rng.randrange(8)
+            return {"name": name, "k": "Typed", "type": self.rng.choice([b"Obj", b"Obj", b"Obj", b"Other"]), "v": v, "av": av}
         return {"name": name, "k": "Int", "v": 7}
 
     def emit_expected_param(self, p):
@@ -147,6 +161,9 @@ class Scn:
         elif k == "Buf":
             self.op("E", "withMemoryBufferParameter", hx(p["name"]), hx(p["v"]), p["size"])
         elif k == "Typed":
+            if p["type"] == b"Obj" and b"Obj" not in self.comparators and self.rng.random() < 0.8:
+                # the comparator is looked up when the parameter is set
+                self.op("S", "installComparator", hx(b"Obj")); self.comparators.add(b"Obj")
             self.op("E", "withParameterOfType", hx(p["type"]), hx(p["name"]), "o%d" % p["v"])
             self.typed_pending = True
         else:
@@ -159,7 +176,7 @@ class Scn:
         elif k == "Buf":
             self.op("A", "withMemoryBufferParameter", hx(p["name"]), hx(p["v"]), p["size"])
         elif k == "Typed":
-            self.op("A", "withParameterOfType", hx(p["type"]), hx(p["name"]), "o%d" % p["v"])
+            self.op("A", "withParameterOfType", hx(p["type"]), hx(p["name"]), "o%d" % p.get("av", p["v"]))
         else:
             self.op("A", "with%sParameters" % k, hx(p["name"]), tok(k, p["v"]))
 
@@ -282,7 +299,7 @@ class Scn:
                 elif q["k"] == "Buf":
                     q["v"] = q["v"] + b"!" ; q["size"] = len(q["v"])
                 elif q["k"] == "Typed":
-                    q["v"] = (q["v"] + 2) % 8
+                    q["av"] = (q["v"] + 2) % 6 if q["v"] < 6 else q["av"]
                 else:
                     q["v"] = dbits(12345.0)
             if fault == "type" and p is params[0] and q["k"] in KIND:
@@ -461,6 +478,19 @@ def sweep_cases():
         "S setDataObject 6f626a 4f626a o2", "S setDataConstObject 636f 4f626a o5", "S getData 6f626a", "S getData 636f",
         "S ignoreOtherCalls", "S actualCall 7a7a", "S disable", "S actualCall 7979", "S enable",
         "S checkExpectations", "S clear", "S removeAllComparatorsAndCopiers"]))
+    # custom types: every pairing of plain / pattern objects on the expected and on the actual side (the comparator is
+    # asymmetric), failure text with valueToString of both operands, copier from a plain and from a pattern object
+    for e, a in [(6, 0), (0, 6), (7, 3), (3, 7), (6, 7), (0, 1), (1, 0), (0, 2), (2, 2), (6, 6)]:
+        out.append(("sweep", [
+            "M0", "S installComparator 4f626a", "S installCopier 4f626a", "S expectOneCall 66",
+            "E withParameterOfType 4f626a 70 o%d" % e, "E withOutputParameterOfTypeReturning 4f626a 6f o%d" % a,
+            "E andReturnIntValue 1", "S actualCall 66", "A withParameterOfType 4f626a 70 o%d" % a,
+            "A withOutputParameterOfType 4f626a 6f b%d" % (e % 4), "A intReturnValue", "S checkExpectations", "S clear",
+            "S removeAllComparatorsAndCopiers"]))
+        out.append(("sweep", [
+            "M 7331", "S installComparator 4f626a", "S expectNCalls 2 66", "E withParameterOfType 4f626a 70 o%d" % e,
+            "S actualCall 66", "A withParameterOfType 4f626a 70 o%d" % a,
+            "S actualCall 66", "A withParameterOfType 4f626a 70 o%d" % e, "S checkExpectations"]))
     return out
 
 
@@ -547,6 +577,16 @@ def nontrivial(r):
 
 def observe(r, rep):
     failed = False
+    exp_obj = {}
+    for l in r.ops:
+        w = l.split()
+        if w[:2] == ["E", "withParameterOfType"] and len(w) == 5:
+            exp_obj[w[3]] = w[4]
+        elif w[:2] == ["A", "withParameterOfType"] and len(w) == 5 and w[3] in exp_obj:
+            e, a = exp_obj[w[3]] in ("o6", "o7"), w[4] in ("o6", "o7")
+            rep.count("typed.expected_%s_actual_%s" % ("pattern" if e else "plain", "pattern" if a else "plain"))
+        elif w[:2] == ["A", "withOutputParameterOfType"]:
+            rep.count("typed.copier_output_requested")
     for l in r.impl:
         w = l.split()
         if len(w) >= 4 and w[0] == ">" and w[1] == "c" and w[3] in ("S", "E", "A") and len(w) >= 5:
